@@ -32,3 +32,33 @@ def denotes_int(v, i):
 def neg_value(v):
     """D(v) < 0 for an integer-valued real v"""
     return ((v._real._s and v._real._c != 0) if cls_name(v) == 'Float' else (v < 0))
+
+
+# ---------------------------------------------------------------------------
+# strict slices (USAGE.md "Slicing")
+
+def bound_ok(b):
+    """a slice bound: omitted, or an integer-valued real"""
+    return True if b is None else (is_real_value(b) and int_valued(b))
+
+
+def bound_is(bnd, i, default):
+    """the slice bound denotes the integer i (the default when omitted); vacuous for an ill-typed bound"""
+    return (i == default) if bnd is None else (denotes_int(bnd, i) if (is_real_value(bnd) and int_valued(bnd)) else True)
+
+
+def int_unique(v, a):
+    """every integer r that the Float v denotes equals a (instance of L_int_denotation_unique for all r)"""
+    if cls_name(v) != 'Float':
+        return True
+    t = trip(v)
+    return forall_ints(lambda r: implies(t_is_int(t, r), r == a))
+
+
+def exp_neg(v):
+    """proof hint: the Float's exponent is negative"""
+    return (v._real._exp < 0) if cls_name(v) == 'Float' else False
+
+
+def sign_of(v):
+    return v._real._s if cls_name(v) == 'Float' else False
